@@ -31,6 +31,16 @@ def generate(tier, rng):
             cases.append(dict(stream=c["stream"], coq=c.get("coq", True), gname=c["gname"], extra=c["extra"], direction="inflow-first", base=c))
         elif c["cls"] == "sdsm" and c.get("solver") == "manual" and c["lifetime"]["kind"] != "fixed":
             cases.append(dict(stream=c["stream"], coq=c.get("coq", True), gname=c["gname"], extra=c["extra"], direction="stock-first", base=c))
+            # a prescribed stock that falls faster than the lifetime allows (halving every year: the inflow found is negative), at
+            # the ordinary magnitude and in a unit 2^40 times larger (all numbers of the order 1e-12): the inflow found, fed to the
+            # inflow-driven model, reproduces the prescribed stock
+            if not c.get("history") and len(cases) % 3 == 0:
+                shp = sd.shape_of(c["grid"], c["extra"])
+                inner = int(np.prod(shp[1:])) if len(shp) > 1 else 1
+                for u in (0, 40):
+                    drv = [str(Fraction(3 + (j % inner) + (j // inner) % 2, 2 ** (u + j // inner))) for j in range(int(np.prod(shp)))]
+                    cases.append(dict(stream="tolerance", coq=False, falling=True, gname=c["gname"], extra=c["extra"], direction="stock-first",
+                                      base=dict(c, driver=drv)))
     return cases
 
 
@@ -39,7 +49,7 @@ def _vals(o, key):
 
 
 def run_impl(case):
-    snap = case["stream"] == "exact"
+    snap = case["stream"] == "exact" and not case.get("falling")
     b = case["base"]
     stages = []
     def stage(c):
@@ -78,7 +88,7 @@ def oracle(case, obs):
     allv = [x for o in v for key in ("stock", "inflow", "outflow") for x in _vals(o, key)]
     if any(x is None for x in allv):
         return "non-finite values (division by a vanishing first-interval survival?)"
-    scale = max([abs(x) for x in allv] + [Fraction(1)])
+    scale = max([abs(x) for x in allv] + [Fraction(0 if case.get("falling") else 1)])
     eps = Fraction(0) if case["stream"] == "exact" else scale * Fraction(1, 10 ** 7)
     g = f"grid {case['gname']}"
     for stg, o in zip(st, v):
